@@ -59,6 +59,7 @@ class Exploration:
         self.maybe_infeasible_paths = 0
         self.events = {}
         self.contract_cut_models = {}
+        self.retried_decided = 0
 
     def add(self, r, keep_witness):
         st = r["stats"]
@@ -85,7 +86,7 @@ class Exploration:
         self.by_outcome[key] = self.by_outcome.get(key, 0) + 1
         for ev in r["events"]:
             self.events[ev["kind"]] = self.events.get(ev["kind"], 0) + 1
-        for ob in r["obligations"]:
+        for idx, ob in enumerate(r["obligations"]):
             self.obligations += 1
             if ob["status"] == "unsat":
                 self.discharged += 1
@@ -93,7 +94,7 @@ class Exploration:
                 self.candidates.append(dict(name=ob["name"], model=ob.get("model"), info=ob.get("info"),
                                             prefix=r["prefix"], summary=r["summary"]))
             else:
-                self.unknown_obligations.append(dict(name=ob["name"], info=ob.get("info"), prefix=r["prefix"]))
+                self.unknown_obligations.append(dict(name=ob["name"], info=ob.get("info"), prefix=r["prefix"], idx=idx))
         if keep_witness and r.get("witness") is not None:
             self.witnesses.append(dict(prefix=r["prefix"], witness=r["witness"], summary=r["summary"], n_eq=r.get("n_eq", 0)))
 
@@ -104,7 +105,7 @@ class Exploration:
                     obligations=self.obligations, discharged=self.discharged, candidates=len(self.candidates),
                     unknown_obligations=len(self.unknown_obligations), problems=len(self.problems),
                     wall_s=round(self.wall, 2), exhausted=self.exhausted, events=self.events,
-                    paths_with_undecided_feasibility=self.maybe_infeasible_paths)
+                    paths_with_undecided_feasibility=self.maybe_infeasible_paths, obligations_decided_on_retry=self.retried_decided)
 
 
 _POOL = None
@@ -216,4 +217,47 @@ def explore_many(jobs, max_paths=20000, time_limit=600.0, timeout_ms=None, witne
                 time.sleep(0.003)
     for j, ex in enumerate(exs):
         ex.wall = done_t[j] if done_t[j] is not None else time.time() - t0
+    # second chance for undecided obligations: the solver time-outs are wall-clock, so a loaded machine turns
+    # decidable queries into 'unknown'.  Their paths are re-run a few at a time with a larger time-out.
+    factor = float(os.environ.get("SYMX_RETRY_FACTOR", "3"))
+    if factor > 0 and timeout_ms:
+        todo = []
+        for j, ex in enumerate(exs):
+            for pref in {tuple(u["prefix"]) for u in ex.unknown_obligations}:
+                todo.append((j, list(pref)))
+        todo = todo[:24]
+        if todo:
+            args = [(jobs[j][0], jobs[j][1], pref, int(timeout_ms * factor)) for j, pref in todo]
+            if serial:
+                results = [_worker(a) for a in args]
+            else:
+                P = pool(nproc)
+                results = []
+                for k in range(0, len(args), 4):
+                    batch = [P.apply_async(_worker, (a,)) for a in args[k:k + 4]]
+                    results.extend(b.get() for b in batch)
+            for (j, pref), r2 in zip(todo, results):
+                ex = exs[j]
+                st = r2["stats"]
+                for k in ("sat", "unsat", "unknown"):
+                    ex.queries[k] += st[k]
+                ex.solver_time += st["solver_time_s"]
+                ex.slowest = max(ex.slowest, st["slowest_query_s"])
+                if r2["outcome"] != "done":
+                    continue
+                keep = []
+                for u in ex.unknown_obligations:
+                    if u["prefix"] != pref:
+                        keep.append(u)
+                        continue
+                    ob = r2["obligations"][u["idx"]] if u.get("idx") is not None and u["idx"] < len(r2["obligations"]) else None
+                    if ob is None or ob["name"] != u["name"] or ob["status"] not in ("sat", "unsat"):
+                        keep.append(u)
+                    elif ob["status"] == "unsat":
+                        ex.discharged += 1
+                        ex.retried_decided += 1
+                    else:
+                        ex.retried_decided += 1
+                        ex.candidates.append(dict(name=ob["name"], model=ob.get("model"), info=ob.get("info"), prefix=pref, summary=r2["summary"]))
+                ex.unknown_obligations = keep
     return exs
